@@ -394,8 +394,6 @@ impl Storage {
             }
         }
 
-        batch.commit().expect("batch commit should be ok");
-
         // The pending matched blocks will be discarded, so when some scripts are kept, the block
         // filters have to be synced again from the earliest of them, otherwise the blocks which
         // were matched for the kept scripts would be skipped.
@@ -410,10 +408,27 @@ impl Storage {
             }
         }
 
+        // The scripts, the filter progress and the removal of the pending matched blocks are
+        // committed together: after a crash a script is never registered without the rewind
+        // that makes its blocks be examined.
         if let Some(min_number) = min_block_number {
-            self.update_min_filtered_block_number(min_number);
+            batch
+                .put_kv(
+                    Key::Meta(MIN_FILTERED_BLOCK_NUMBER),
+                    min_number.to_le_bytes().as_slice(),
+                )
+                .expect("batch put should be ok");
         }
-        self.clear_matched_blocks();
+        let matched_key_prefix = Key::Meta(MATCHED_FILTER_BLOCKS_KEY).into_vec();
+        let mode = IteratorMode::From(matched_key_prefix.as_ref(), Direction::Forward);
+        for (key, _) in self
+            .db
+            .iterator(mode)
+            .take_while(|(key, _value)| key.starts_with(&matched_key_prefix))
+        {
+            batch.delete(key).expect("batch delete should be ok");
+        }
+        batch.commit().expect("batch commit should be ok");
 
         if should_filter_genesis_block {
             let block = self.get_genesis_block();
@@ -532,20 +547,6 @@ impl Storage {
         #[cfg(feature = "verif")]
         verif_hook::before_write();
         self.db.delete(&key).expect("delete matched blocks");
-    }
-
-    fn clear_matched_blocks(&self) {
-        let key_prefix = Key::Meta(MATCHED_FILTER_BLOCKS_KEY).into_vec();
-        let mode = IteratorMode::From(key_prefix.as_ref(), Direction::Forward);
-        let mut batch = self.batch();
-        for (key, _) in self
-            .db
-            .iterator(mode)
-            .take_while(|(key, _value)| key.starts_with(&key_prefix))
-        {
-            batch.delete(key).expect("batch delete should be ok");
-        }
-        batch.commit().expect("batch commit should be ok");
     }
 
     /// Adds the matched blocks of a filtered range and moves the filter progress to the end of
